@@ -43,6 +43,10 @@ for mid, d in sorted(DESC.items()):
     elif not os.path.isdir(dst):
         print("missing deliverable", mid)
         continue
+    # The logs under /tmp do not survive a sandbox restore: a change that has a meta.json and no
+    # log of this session keeps its meta.json as it is.
+    if os.path.exists(os.path.join(dst, "meta.json")) and mid not in detect and mid not in verify:
+        continue
     # chronological: runs with a timestamp after those without (older log format)
     runs = sorted(detect.get(mid, []), key=lambda r: r["at"])
     meta = {
